@@ -284,14 +284,16 @@ Proof. exact model_outcome_holds. Qed.
 Print Assumptions C03_model_outcome_satisfies_spec.
 
 Theorem C03_agree_implies_holds :
-  forall (c : c03_case) (r : c03_run), wf_case c -> run_agree c r = true -> run_holds c r = true.
+  forall (c : c03_case) (r : c03_run), wf_case c -> run_agree c r = true -> run_holds_core c r = true.
 Proof. exact agree_implies_holds. Qed.
 Print Assumptions C03_agree_implies_holds.
 
 (* exactly what the check computes per case: the agree bit (which includes the well-formedness
-   test of the case) implies the holds bit *)
+   test of the case) implies the part of the holds bit that is the property as stated
+   (run_holds_core = Spec.spec_holds); the holds bit additionally checks the number of on_miss
+   calls of the run (Spec.calls_ok), which the model does not predict *)
 Theorem C03_verdict_agree_implies_holds :
-  forall c : c03_case, fst (fst (c03_verdict c)) = true -> snd (fst (c03_verdict c)) = true.
+  forall c : c03_case, fst (fst (c03_verdict c)) = true -> forallb (run_holds_core c) (ca_runs c) = true.
 Proof. exact verdict_agree_implies_holds. Qed.
 Print Assumptions C03_verdict_agree_implies_holds.
 
